@@ -747,6 +747,27 @@ def check_alias(case, ctx: Ctx):
         ctx.fail(C, "config:noise_model", "")
     if c1._backend_options is c2._backend_options or [o.tag for o in c1.observables] != ["occupation"]:
         ctx.fail(C, "config:options", "")
+    # two configurations made one after the other from the same working objects (a matrix buffer
+    # that is refilled, a list of observables that is extended): the second construction and
+    # what precedes it never change the first
+    from pulser.backend import BitStrings
+
+    n = 2 + case["a"]["n"] % 3
+    buf = np.array([[0.0 if i == j else 1.0 + abs(i - j) for j in range(n)] for i in range(n)])
+    obs = [BitStrings(evaluation_times=[0.25, 0.5], num_shots=50), Occupation()]
+    cA = ctx.must(lambda: EmulationConfig(observables=obs, interaction_matrix=buf), C, "config A")
+    jA = cA.to_abstract_repr()
+    buf *= 2.0
+    obs.append(Occupation(tag_suffix="later"))
+    cB = ctx.must(lambda: EmulationConfig(observables=obs, interaction_matrix=buf), C, "config B")
+    if cA.to_abstract_repr() != jA:
+        d = _first_diff(json.loads(jA), json.loads(cA.to_abstract_repr())) if "_first_diff" in globals() else ""
+        ctx.fail(C, "config:changed_by_building_another_from_the_same_objects",
+                 f"the first configuration's representation changed after its matrix buffer / observable list "
+                 f"were reused for a second one {d}")
+    if len(cB.observables) != 3 or np.max(np.abs(np.asarray(cB.interaction_matrix.as_array() if hasattr(
+            cB.interaction_matrix, "as_array") else cB.interaction_matrix) - buf)) > 0:
+        ctx.fail(C, "config:second_config_wrong", "")
 
 
 CLAUSES = [
